@@ -14,9 +14,11 @@ class Divergence(EngineError):
 
 
 class Tape:
-    __slots__ = ("prefix", "choices", "arity", "labels", "weight", "meta")
+    __slots__ = ("prefix", "choices", "arity", "labels", "weight", "meta", "lenient", "adjusted")
 
-    def __init__(self, prefix=()):
+    def __init__(self, prefix=(), lenient=False):
+        self.lenient = lenient      # replay of a schedule recorded on ANOTHER tree: follow it as far as it exists
+        self.adjusted = False
         self.prefix = list(prefix)
         self.choices = []
         self.arity = []
@@ -27,6 +29,8 @@ class Tape:
     def choose(self, n, label="", probs=None):
         i = len(self.choices)
         c = self.prefix[i] if i < len(self.prefix) else 0
+        if not (0 <= c < n) and self.lenient:
+            c, self.adjusted = 0, True
         if not (0 <= c < n):
             raise Divergence(f"choice {c} out of range {n} at point {i} ({label}) while replaying {self.prefix}")
         self.choices.append(c)
@@ -37,6 +41,9 @@ class Tape:
         return c
 
     def finished(self):
+        if len(self.choices) < len(self.prefix) and self.lenient:
+            self.adjusted = True
+            return
         if len(self.choices) < len(self.prefix):
             raise Divergence(f"prefix {self.prefix} not consumed (only {len(self.choices)} choice points)")
 
@@ -87,10 +94,14 @@ def explore(body, bound=None, max_exec=None, stats=None, prune=None):
                 stack.append(t.choices[:i] + [alt])
 
 
-def replay(body, choices):
-    t = Tape(choices)
+def replay(body, choices, lenient=True):
+    """Re-run one recorded schedule.  Replay files are also run against OTHER trees (a fix, a seeded change, the
+    clean tree): there the recorded schedule may not exist (fewer choice points, a smaller menu).  In lenient
+    mode it is followed as far as it exists, defaults after that (`tape.adjusted` says so); strict mode is what
+    the explorer's own determinism checks use."""
+    t = Tape(choices, lenient=lenient)
     r = body(t)
     t.finished()
-    if t.choices != list(choices):
+    if not lenient and t.choices != list(choices):
         raise Divergence(f"replay took {t.choices}, expected {list(choices)}")
     return t, r
